@@ -866,6 +866,59 @@ def memory_findings():
     return out
 
 
+def prbs_pause_probe():
+    """C01-prbs-python-bool-invert: `PRBSRX(with_errors_saturation=False)` used `~with_errors_saturation` on a Python
+    bool (= -1, always truthy after masking), so the simulator kept counting errors while `pause` was asserted and
+    the emitted Verilog (`$signed({1'd0, (~pause)}) & ...`) did not.  Probe: the real Evaluator on the design and the
+    golden reading of the emitted text, `pause` = 1, garbage input, PRBS7 checker selected: the two `errors`
+    counters must agree (and stay 0)."""
+    from litex.soc.cores.prbs import PRBSRX
+    from netlist import Netlist
+    rng = random.Random(11)
+
+    def mk():
+        dut = PRBSRX(8)
+        ports = {"config": dut.config, "pause": dut.pause, "i": dut.i, "errors": dut.errors}
+        f, ios, cds = L.prepare(dut)
+        return f, ios, cds, {nm: next(k for k, s_ in enumerate(ios) if s_ is sg) for nm, sg in ports.items()}
+    fA, iosA, cdsA, pos = mk()
+    fB, iosB, cdsB, posB = mk()
+    assert pos == posB
+    nl = Netlist(fA, clocks=tuple(cdsA))
+    cap = L.convert_capture(fB, iosB)
+    sigs = L.module_signals(cap)
+    ids = SigIds()
+    for s_ in sigs:
+        ids.get(s_)
+    name_ids = {cap.ns.get_name(s_): ids.get(s_) for s_ in sigs}
+    pv = L.PyVSim(L.parse_module(cap.text, name_ids), name_ids)
+    clks = [cd.clk for cd in cap.f.clock_domains]
+    rst_pos = [k for k, s_ in enumerate(iosB) if any(s_ is cd.rst for cd in cap.f.clock_domains)]
+
+    def errors():
+        return nl.getu(iosA[pos["errors"]]), pv.state[ids.get(iosB[pos["errors"]])]
+    at_pause = None
+    for t in range(40):
+        vals = {pos["config"]: 1, pos["pause"]: 1 if t >= 8 else 0, pos["i"]: rng.randrange(256)}
+        vals.update({k: 0 for k in rst_pos})
+        for k, v in vals.items():
+            nl.set(iosA[k], v)
+            pv.state[ids.get(iosB[k])] = v
+        nl.settle()
+        pv.settle()
+        if t == 8:
+            at_pause = errors()
+        nl.tick(tuple(cdsA))
+        pv.tick({ids.get(c) for c in clks})
+    end = errors()
+    fails = end[0] != end[1] or end[0] != at_pause[0]
+    return ("C01-prbs-python-bool-invert",
+            "PRBSRX(with_errors_saturation=False): error counter while `pause` is asserted (garbage input, PRBS7 "
+            "selected): the simulator must hold it, as the emitted Verilog does",
+            fails, {"errors_when_pause_rises": {"simulator": at_pause[0], "verilog": at_pause[1]},
+                    "errors_after_32_paused_cycles": {"simulator": end[0], "verilog": end[1]}})
+
+
 def l3_memories(ctx, cycles, dis):
     tot = dict(cases=0, unsupported=0, cycles=0)
     for name, mk in memory_builders(ctx.tier):
@@ -931,6 +984,71 @@ def lowering_arith(ctx, n_cases, dis):
     ctx.cov.add_cases("_lower_slice_cat/_replicate index arithmetic vs Lean lowerCat/lowerRep", len(metas), moved,
                       exhaustive=False)
     ctx.log("lowering arithmetic: %d cases (%d descended into an element)" % (len(metas), moved))
+    lowering_drop(ctx, n_cases // 3, dis)
+
+
+def lowering_drop(ctx, n_cases, dis):
+    """The last decision of the real `_ComplexSliceLowerer.visit_Slice` (drop the slice / keep it on the signal or
+    on a proxy signal) vs Lean `dropsSlice`, on the node the real index arithmetic resolves the slice to."""
+    from litex.gen.fhdl.verilog import _ComplexSliceLowerer, _lower_slice_cat, _lower_slice_replicate
+    from migen.fhdl.structure import Cat, Replicate, _Slice
+    rng = ctx.rng
+    lines, metas = [], []
+    for k in range(n_cases):
+        sigs = make_sigs(rng, rng.randint(2, 4), maxw=rng.choice([1, 2, 4, 7]), p_signed=0.4)
+        g = ExprGen(rng, sigs, lowered=True, tame=False)
+        r = rng.random()
+        if r < 0.35:
+            base = rng.choice(sigs)
+        elif r < 0.55:
+            base = Cat(*[g.gen(1) for _ in range(rng.randint(1, 3))])
+        elif r < 0.7:
+            base = Replicate(g.gen(1), rng.randint(1, 3))
+        else:
+            base = g.gen(rng.randint(1, 2))
+        n = len(base)
+        if n == 0 or n > 64:
+            continue
+        if rng.random() < 0.7:
+            start, length = 0, n                       # the interesting case: the slice covers the node
+        else:
+            start = rng.randrange(0, n)
+            length = rng.randint(1, n - start)
+        e = _Slice(base, start, start + length)
+        if rng.random() < 0.2 and length > 0:
+            e = _Slice(e, 0, length)                   # nested full slice
+        # resolved node: the real walk
+        node, st = e, 0
+        while isinstance(node, _Slice):
+            st += node.start
+            node = node.value
+            while True:
+                node, st = _lower_slice_cat(node, st, length)
+                former = node
+                node, st = _lower_slice_replicate(node, st, length)
+                if node is former:
+                    break
+        low = _ComplexSliceLowerer()
+        res = low.visit(e)
+        dropped = not isinstance(res, _Slice)
+        ids = SigIds()
+        for s_ in sigs:
+            ids.get(s_)
+        try:
+            lines.append("drop %d %d ; %s" % (st, length, " ".join(ser_expr(node, ids))))
+        except L.Unsupported:
+            continue
+        metas.append((dropped, st, length, node))
+    ndrop = 0
+    for (dropped, st, length, node), ans in zip(metas, ctx.lean.call_batch(lines)):
+        ndrop += 1 if dropped else 0
+        if ans.strip() != ("1" if dropped else "0"):
+            dis.append(Dis("lowering-drop", start=st, length=length, node=repr(node)[:200], real_dropped=dropped,
+                           lean=ans[:50], what="_ComplexSliceLowerer.visit_Slice drop decision differs from Lean dropsSlice"))
+            if len(dis) > 5:
+                break
+    ctx.cov.add_cases("_ComplexSliceLowerer drop-the-slice decision vs Lean dropsSlice", len(metas), ndrop, exhaustive=False)
+    ctx.log("lowering drop decision: %d cases (%d dropped)" % (len(metas), ndrop))
 
 
 # ----------------------------------------------------------------------------------------------------------
@@ -1011,7 +1129,14 @@ def run_witness(ctx, w):
         ss = [Signal((n, sg), name_override="s%d" % i) for i, (n, sg) in enumerate(w["sigs"])]
         y = Signal(lw, name_override="y")
         m = Module()
-        m.comb += y.eq(build_ast(w["expr"], ss))
+        if w["kind"] == "case":
+            # Case(expr, {key_k: y.eq(k + 1), ..., "default": y.eq(0)})
+            from migen import Case
+            cases = {k: y.eq(n + 1) for n, k in enumerate(w["keys"])}
+            cases["default"] = y.eq(0)
+            m.comb += Case(build_ast(w["expr"], ss), cases)
+        else:
+            m.comb += y.eq(build_ast(w["expr"], ss))
         return m.get_fragment(), ss, y
     fA, sA, yA = build()
     nl = Netlist(fA, clocks=())
@@ -1059,10 +1184,14 @@ def corpus_run(ctx, dis):
                                what="Lean model and real code / golden reading disagree on a corpus witness"))
             if ln["fits"] and r["simulator"] != r["verilog"]:
                 dis.append(Dis("theorem-contradicted", id=w["id"], lean=ln))
-        if w["status"] == "regression":
+        if w["status"] in ("regression", "fixed"):
+            # "fixed" = witness of a repaired finding: the two sides must now agree (it stays a probe, see probes())
             if r["simulator"] != r["verilog"] or r["simulator"] != w["simulator"] or ("text" in w and r["text"] != w["text"]):
                 dis.append(Dis("corpus-regression", id=w["id"], got=r, expected={k: w[k] for k in ("simulator", "verilog")},
                                what=w["what"]))
+            if ln is not None and "fits" in w and ln["fits"] != w["fits"]:
+                dis.append(Dis("corpus-fits", id=w["id"], lean=ln, expected_fits=w["fits"],
+                               what="the side condition Fits of the printer theorem does not classify the witness as recorded"))
         else:
             if r["simulator"] != r["verilog"]:
                 reproduced.append(w["id"])
@@ -1297,7 +1426,7 @@ def probes(ctx):
     ctx.lean = None          # probes use the real code and the python golden reading only
     try:
         for w in load_witnesses():
-            if w["status"] != "finding":
+            if w["status"] not in ("finding", "fixed"):
                 continue
             try:
                 r = run_witness(ctx, w)
@@ -1309,7 +1438,7 @@ def probes(ctx):
                 out.append((w["id"], fails, what))
             elif fails:
                 ctx.cov.notes.append("CANDIDATE-FINDING (not yet in known_findings.json) " + w["id"] + ": " + what)
-        for fid, what, rep, detail in memory_findings():
+        for fid, what, rep, detail in memory_findings() + [prbs_pause_probe()]:
             if fid in listed:
                 out.append((fid, rep, what + " " + json.dumps(detail)))
             elif rep:
